@@ -10,7 +10,7 @@ import os
 from . import tlaval, tlc
 from .c16_backends import ABSENT, HEAD, DictBackend, DiskBackend, GitView, ReftableBackend
 from .c16_replay import (METHOD, Finding, call_case, call_str, diff_desc, eff, git_diffs, is_prefix, placement,
-                         state_features, _cls, _got, _ser)
+                         state_features, _cls, _got, _ser, _tagns)
 from .core import MachineryError
 
 BIG_NAMES = [HEAD, ("refs", "heads", "a"), ("refs", "heads", "a", "b"), ("refs", "heads", "a", "c"),
@@ -255,9 +255,10 @@ def describe(rec: Recorder, obj, step, clause, want, name):
         p = e["_api"]["peeled"].get(name)
         if want in rec.objs.peel:
             tag = "tag" if rec.objs.peel[want] != want else "commit"
-            sig = f"{site}.get_peeled|peeled|name={placement(post_l, post_p, name)} value={tag} got={'itself' if p == want else _cls(p)}"
+            sig = (f"{site}.get_peeled|peeled|name={placement(post_l, post_p, name)}{_tagns(name)} value={tag} "
+                   f"got={'itself' if p == want else _cls(p)}")
         else:
-            sig = f"{site}.get_peeled|peeled|name={placement(post_l, post_p, name)} unresolvable got={_cls(p)}"
+            sig = f"{site}.get_peeled|peeled|name={placement(post_l, post_p, name)}{_tagns(name)} unresolvable got={_cls(p)}"
         what = f"get_peeled({'/'.join(name)}) gives {p}; refs[...] is {want}"
     elif clause == "as_dict":
         a = e["_api"]["as_dict"]
